@@ -145,16 +145,6 @@ pub fn note_semantics(st: &mut Stats, t: &Tree, op: &Op, removed: &mut BTreeSet<
                 st.inc("sem:recreate_after_remove");
             }
         }
-        Op::Handle { steps, .. } => {
-            for s in steps {
-                match s {
-                    Step::Seek { .. } => st.inc("sem:cursor_seek"),
-                    Step::Read { .. } => st.inc("sem:cursor_read"),
-                    Step::Write { .. } => st.inc("sem:cursor_write"),
-                    _ => {}
-                }
-            }
-        }
         _ => {}
     }
     if let Op::Handle { steps, .. } = op {
